@@ -8,6 +8,7 @@ from __future__ import annotations
 
 import itertools
 import math
+import zlib
 from fractions import Fraction
 
 import numpy as np
@@ -32,7 +33,10 @@ class NumEnv:
         f = self.arrays.get(name)
         if f is not None:
             return f(*idx)
-        h = hash((name, tuple(idx), self.seed)) % 2001
+        # (zlib.crc32, not hash(): str hashes are randomised per process and a replay must see the same inputs)
+        h = zlib.crc32(repr((name, tuple(int(i) for i in idx), self.seed)).encode()) % 2001
+        if name.startswith("RND_U["):
+            return h / 2001.0      # a uniform draw: 0 <= U < 1
         return (h - 1000) / 800.0
 
     def ev(self, t):
@@ -123,6 +127,10 @@ class NumEnv:
             if not ch:
                 if name == "PI":
                     return math.pi
+                if name == "NAN!":
+                    return float("nan")
+                if "#" in name:   # operator symbol without parameters and output index (full reduction)
+                    return self.operator(t, name, [])
                 return self.array_value(name, ())
             if name == "ER":
                 return math.exp(self.ev(ch[0]))
